@@ -192,7 +192,9 @@ def decide_and_report(prop, tier, seed, runs, undecided, known, index, wall, ext
     by_kind = {}
     for o in claimed:
         by_kind[o['kind']] = by_kind.get(o['kind'], 0) + 1
-    backends['verus(z3)'] = len([o for o in claimed if o['kind'] != 'kani'])
+    backends['verus(z3)'] = len([o for o in claimed if o['kind'] not in ('kani', 'guard')])
+    if any(o['kind'] == 'guard' for o in claimed):
+        backends['text check of the extractor (guard_hazards: RefCell guard in a scrutinee alive across .await)'] = len([o for o in claimed if o['kind'] == 'guard'])
 
     status = 0
     lines = []
